@@ -61,7 +61,7 @@ pub const SEED_MAPS: [(f64, f64, f64, f64); 8] = [
     (1.0, 8.0, 2.0, -1.0),
 ];
 
-pub const DESIGNS: [&str; 3] = ["cheb", "indicator", "ramp"];
+pub const DESIGNS: [&str; 4] = ["cheb", "indicator", "indicator-shift", "ramp"];
 pub const SCALES: [f64; 3] = [1.0, 1e-2, 1e3];
 pub const MEANS: [f64; 3] = [0.0, 5.0, 100.0];
 /// 6 patterns over a 3-element value set: 0..3 = every column the same value, 3..6 = cyclic by column
@@ -95,9 +95,10 @@ pub fn base_design(design: &str, n: usize, p: usize, seed: u64) -> Mat {
                 }
             }
         }
-        // one-hot group membership, p+1 groups, last group dropped
-        "indicator" => {
-            let off = (seed as usize) % (p + 1);
+        // one-hot group membership i mod (p+1), last group dropped; "indicator-shift" starts the
+        // cycle one group later (so that, when p+1 does not divide n, another group is the short one)
+        "indicator" | "indicator-shift" => {
+            let off = ((seed as usize) * 2 + if design == "indicator" { 0 } else { 1 }) % (p + 1);
             for i in 0..n {
                 let g = (i + off) % (p + 1);
                 if g < p {
